@@ -36,18 +36,23 @@ func (cw *CountingWriter) ReadFrom(r io.Reader) (n int64, err error) {
 	buf := make([]byte, 32*1024)
 	n = 0
 	for {
-		var nr int
-		nr, err = r.Read(buf)
-		if err != nil {
-			return
-		}
-
-		var nw int
-		nw, err = cw.w.Write(buf[:nr])
-		if err != nil {
+		nr, er := r.Read(buf)
+		if nr > 0 {
+			nw, ew := cw.w.Write(buf[:nr])
 			n += int64(nw)
-			cw.Written += n
-			return
+			cw.Written += int64(nw)
+			if ew != nil {
+				return n, ew
+			}
+			if nw < nr {
+				return n, io.ErrShortWrite
+			}
+		}
+		if er == io.EOF {
+			return n, nil
+		}
+		if er != nil {
+			return n, er
 		}
 	}
 }
